@@ -76,8 +76,8 @@ Proof. exact trigger_exhausted. Qed.
 Print Assumptions c19_exhausted.
 
 (* custody: after every history (several gauges incl. swap-fee gauges, several external locker /
-   vault programs, several denoms, any block times, any environment) that meets neither class
-   C19-F2 nor C19-F3, the rewards module account holds, in every denom, at least the remainders of
+   vault / lend programs, several denoms, any block times, any environment) that meets none of the
+   classes C19-F2, C19-F3, C19-F4, the rewards module account holds, in every denom, at least the remainders of
    ALL gauges plus the available rewards of ALL programs (hence of the active ones: the predicate
    the harness evaluates on the implementation holds on the model) *)
 Theorem c19_custody : forall ops d, forallb op_wf ops = true -> run_clean rinit ops = true ->
@@ -108,6 +108,15 @@ Theorem c19_custody_program_refuted : exists ops d, forallb op_wf ops = true /\ 
   r_bal s d < owed_g d (r_gauges s) /\ holds_C19_custody d (r_bal s d) (r_gauges s) (r_exts s) = false.
 Proof. exact custody_program_refuted. Qed.
 Print Assumptions c19_custody_program_refuted.
+
+(* known finding C19-F4: a lend reward program of 1 000 000 units of a token priced 2.0, one day, one
+   borrower: DistributeExtRewardLend pays 2 000 000 (a value paid out as an amount); a gauge's
+   5 000 000 in the same denom is left with 4 000 000 *)
+Theorem c19_custody_lend_refuted : exists ops d, forallb op_wf ops = true /\ run_clean rinit ops = false /\
+  let s := rrun rinit ops in
+  r_bal s d < owed_g d (r_gauges s) /\ holds_C19_custody d (r_bal s d) (r_gauges s) (r_exts s) = false.
+Proof. exact custody_lend_refuted. Qed.
+Print Assumptions c19_custody_lend_refuted.
 
 (* epoch timing: a tick triggers at most one epoch and only strictly after its end; after a halt of
    more than two durations the missed epochs are skipped without any distribution *)
